@@ -286,7 +286,7 @@ PROPS = {
     },
     "C05": {
         "modules": ["SxVerif.Props.C05"],
-        "components": ["fill", "iface", "parse"],
+        "components": ["fill", "iface", "parse", "e2efill"],
         "trusted_base": [
             "modelled, not verified: gopacket layers.{Ethernet,IPv4,TCP,UDP,ICMPv4,ARP}.SerializeTo, gopacket.Payload, SerializeLayers order, checksum / tcpipChecksum / pseudoheaderChecksum, Ethernet padding to 60 bytes, net.IP.To4 (Model/Fill.lean); validated byte for byte against the real fillers on every run, not proved",
             "math/rand draws are parameters of the model; their ranges are regenerated from the four Fill bodies by sxfacts (Generated/Fill.lean, theorem C05_draws); rand.Intn(n) returns a value in [0, n)",
@@ -402,7 +402,7 @@ PROPS = {
     },
     "C18": {
         "modules": ["SxVerif.Props.C18"],
-        "components": ["parse"],
+        "components": ["parse", "e2efill"],
         "trusted_base": [
             "modelled, not verified: strconv.ParseUint(.,10,16) / ParseInt(.,10,32), strings.Split/TrimSpace/ToLower, bufio.Scanner line splitting with the 64 KiB limit, strconv.Unquote on the quoted payload (Model/Parse.lean); time.ParseDuration is a parameter `dur` of the rate theorems (the harness passes the real function's answer)",
             "flag tables regenerated from command/config.go and command/tcp.go by sxfacts (Generated/Flags.lean)",
